@@ -450,13 +450,14 @@ func init() {
 			"0.0.0.0~255.255.255.255 (size does not fit 32 bits) is excluded as in the property's quantifier"},
 		Rule: "(1) every range text built from the address menu (single, a~b incl. reversed, malformed) vs. a uint32 model: acceptance, bounds, Size, Contains, String and JSON round trip; (2) every pool = subnet x gateway(in/out/missing) x node-subnet form x ordered list of <=R ranges " +
 			"from the subnet's menu: acceptance == model validity; accepted => Size/Contains/enumeration (fresh ConfigurePool) == the set, Marshal/Unmarshal round trip; (3) every invalid text alone / next to a valid pool submitted as a reload: error and nothing changes; " +
+			"(4) every sequence of <= 3 (4) InsertIP / RemoveIP operations over a 10-address universe on 7 decoded pools vs. the set model (well-formed ranges, Size, Contains, enumeration, round trip, return values); " +
 			"distinct/non-trivial = distinct (input text, accepted?) pairs",
 		Jobs: func(tier string) []Job {
 			maxR := 3
 			if tier == "thorough" {
 				maxR = 4
 			}
-			jobs := []Job{c20RangeJob(), c20RejectJob()}
+			jobs := []Job{c20RangeJob(), c20RejectJob(), c20EditJob(tier)}
 			for s := 0; s < 8; s++ {
 				jobs = append(jobs, c20PoolJob(s, 8, maxR))
 			}
